@@ -305,17 +305,23 @@ def bodyKind (limit : Nat) (h : Hdrs) : Option BodyKind :=
       | some n => some (.fixed n)
       | none => some .none
 
+/-- `_connection_options`: the lower-cased, non-empty, SP/HTAB-stripped items of the comma-separated
+    `Connection` header (absent header = no options) -/
+def connOptions (h : Hdrs) : List Str :=
+  (((hGet h kConnection).getD []) |> splitOnC cComma).filterMap
+    (fun o => let t := stripWs o; if t.isEmpty then none else some (lower t))
+
 /-- `_can_keep_alive` (`none` = the HTTPInputError of `is_transfer_encoding_chunked` on the HTTP/1.0 path) -/
 def canKeepAlive (noKeepAlive : Bool) (method version : Str) (h : Hdrs) : Option Bool :=
   if noKeepAlive then some false
   else
-    let conn := (hGet h kConnection).map lower
-    if version = kHttp11 then some (conn != some kClose)
-    else if hHas h kContentLength then some (conn == some kKeepAlive)
+    let opts := connOptions h
+    if version = kHttp11 then some (!opts.contains kClose)
+    else if hHas h kContentLength then some (opts.contains kKeepAlive)
     else match teChunked h with
       | none => none
-      | some true => some (conn == some kKeepAlive)
-      | some false => if method = kHEAD || method = kGET then some (conn == some kKeepAlive) else some false
+      | some true => some (opts.contains kKeepAlive)
+      | some false => if method = kHEAD || method = kGET then some (opts.contains kKeepAlive) else some false
 
 /-! ### Host -/
 
